@@ -21,6 +21,10 @@ machine - with several contexts in one .debug_info, and SEQUENCES of files dumpe
 keeps module-level state between dumps; every dump of a sequence is compared with what GNU readelf prints for that file alone).
 Round 4: spec/ReadelfEnvelopeC.tla (the CFI writer of C06 with an alphabet of BLOCKS that nests DW_CFA_remember_state /
 DW_CFA_restore_state pairs up to depth 3 - the depth of the remembered-state stack of DWARF 6.4.2.4 - for frames / frames-interp).
+Round 5: spec/ReadelfEnvelopeL.tla (location and range lists of the pair format whose base address selection entries select 0, the
+unit's low_pc or another address, in units whose DW_AT_low_pc is 0 or not, for loc / Ranges / info; list expressions with DIE
+references inside entry-value blocks), DIE-reference operations nested in entry-value blocks in ReadelfEnvelopeE, and the versions
+images also under -s (name@version vs name@@version of symbols that share a version index).
 GNU readelf is the oracle only where it accepts the image without complaint (exit status 0, no
 "readelf: Warning/Error", no bytes >= 0x80 in the text); every other restriction of the envelope
 is a predicate on the emitted case with a stated reason, counted in the evidence."""
